@@ -30,6 +30,13 @@
                  (parameters actually stored), `memo` (which used-counts have had their sub-carrier numbers
                  computed, and in which branch), `prev` (layout and content of the IFFT input of the last
                  modulate call).
+     LONG INPUTS.  LongCase (star): one very long input (lengths just above 2^12 .. 2^17, used counts that do not divide the
+                 power of two): the number of symbols, the emitted length and the POSITION of every data element in the
+                 padded stream (element j at position j: `LongLaw`) - judged on the real code by length + round trip (rel).
+     REALISATIONS.  A live chain (a use of a history) is sent through the layout of its configuration (the same channel object
+                 from use to use) AND through a realisation of its own (keyed by the position of the use), while ONE
+                 equaliser object lives through the whole history: the equalised symbols depend only on the arguments of
+                 the call (`RepeatableCall`), not on earlier impulse responses.
      CALL FORMS.  A parameter set <<N, cp, -1>> stands for the TWO-argument call OFDM(N, cp) / set_parameters(N, cp):
                  the used count defaults to N (`EffU`), so the call is valid for even N (all carriers, DC used) and
                  must be rejected for odd N.  It occurs in ParamCase stars and in histories.
@@ -87,6 +94,9 @@
      RejectedSetHalfUpdates (set_parameters stores fft/cp before it validates the used count),
      ScaleWrapsNarrowInt (fft_size^2 formed in the parameters' own narrow integer type wraps),
      EqSkipsTinyResponse (the equaliser does not divide where |H| is below an ABSOLUTE threshold 1e-6),
+     ModulateInBlocks (inputs longer than 65536 symbols are cut into independently zero-padded blocks),
+     EqMemoByIdentity (the equaliser re-uses the mean response of an EARLIER impulse response of the same fft size and
+     symbol count - what a cache keyed by the identity of a dropped object does when the address is recycled),
      PadKeepsOldData (the zero-padded IFFT input is kept between modulate calls and re-zeroed only when its
      layout <<symbols, fft, used>> changes), DemodScalesArgument (demodulate removes the scale in place on
      the caller's array)
@@ -107,12 +117,14 @@ CONSTANTS Configs,   \* set of <<N, cp, u>> for which pipeline cases are generat
           Block,     \* BOOLEAN: also block-static channels (taps of OFDM symbol s multiplied by i^s)
           CallTypes, \* sequence of scalar types the configuration calls of a history rotate through
           PTypes,    \* set of parameter scalar types for the chains of fresh objects ({"int"} = Python ints only)
+          LongCases, \* set of <<N, cp, u, L>> : star cases for one very long input
           ScaleCases,\* set of <<N, cp, u, pt>> : star cases for sizes too large for chains
           Gains,     \* set of exponents g: every channel is also run with its taps scaled by 10^g
           HistFirst, \* set of valid <<N, cp, u>> a live object is constructed with (partitions the histories)
           HistValid, \* set of valid <<N, cp, u>> a live object is re-configured to
           HistBad,   \* set of invalid <<N, cp, u>> passed to set_parameters (must be rejected, object unchanged)
           HistMax,   \* number of configuration calls in a history (constructor included)
+          OwnReal,   \* BOOLEAN: every use of a live object is also sent through a channel realisation of its own
           UseMax,    \* number of consecutive uses (modulate ... chains) after a configuration call
           Seed,      \* seeds the in-spec LCG
           Dev        \* [flag |-> BOOLEAN]
@@ -132,7 +144,8 @@ GZ == <<0, 0>>
 Exact(N) == N \in {2, 4, 8, 16}
 NoChan == [taps |-> <<>>, block |-> FALSE, g |-> 0, route |-> "int", raw |-> <<>>]
 NoObj  == [N |-> 0, cp |-> 0, u |-> 0]
-NoPrev == [ns |-> 0, N |-> 0, u |-> 0, pad |-> <<>>]
+NoUse  == <<0, 0, 0, 0, 0>>                       \* <<N, cp, u, symbols, position>> of a use
+NoPrev == [ns |-> 0, N |-> 0, u |-> 0, pad |-> <<>>, cur |-> NoUse, old |-> NoUse]
 NoCfg  == [N |-> 0, cp |-> 0, u |-> 0, L |-> 0, pat |-> <<"none", 0, 0>>, pt |-> "int"]
 N0 == cfg.N
 CP == cfg.cp
@@ -232,9 +245,10 @@ DataOf(pat, L, k) ==
 
 TV(k, i) == TapVals[(Rnd(k, i) % 8) + 1]
 \* three layouts per configuration: full memory two-tap; three taps (or a pure delay); first tap late
+LayoutA(c, k) == IF c[2] = 0 THEN << <<0, TV(k, 1)>> >> ELSE << <<0, TV(k, 1)>>, <<c[2], TV(k, 2)>> >>
 ThreeLayouts(c, k) ==
     LET cp == c[2]
-        A == IF cp = 0 THEN << <<0, TV(k, 1)>> >> ELSE << <<0, TV(k, 1)>>, <<cp, TV(k, 2)>> >>
+        A == LayoutA(c, k)
         B == IF cp <= 1 THEN << <<cp, TV(k, 3)>> >>
              ELSE << <<0, TV(k, 4)>>, <<1 + (Rnd(k, 5) % (cp - 1)), TV(k, 6)>>, <<cp, TV(k, 7)>> >>
         d1 == IF cp = 0 THEN 0 ELSE 1 + (Rnd(k, 8) % cp)
@@ -414,7 +428,10 @@ Equalize ==
     /\ pc = "dem" /\ chan # NoChan /\ pc' = "eq"
     /\ LET skip == Dev.EqSkipsTinyResponse /\ chan.g <= -7      \* |10^g H| below the absolute threshold: not divided
        IN  /\ eq' = IF Exact(N0)
-                      THEN LET H == IF Dev.FreqResponseTruncates THEN FreqRespTrunc(chan.taps, N0) ELSE FreqResp(chan.taps, N0)
+                      THEN LET stale == Dev.EqMemoByIdentity /\ hist # <<>> /\ prev.old[1] = N0 /\ prev.old[4] = ns
+                               oc == <<prev.old[1], prev.old[2], prev.old[3]>>
+                               H == IF stale THEN FreqResp(FixLayout(LayoutA(oc, KeyOf(oc, prev.old[5])), oc[1], oc[3]), N0)
+                                    ELSE IF Dev.FreqResponseTruncates THEN FreqRespTrunc(chan.taps, N0) ELSE FreqResp(chan.taps, N0)
                            IN  [j \in 1..Len(dem) |-> [num |-> dem[j], den |-> IF skip THEN CyScale(sc.div, CyOne(MM)) ELSE EqDen(H, j)]]
                       ELSE <<>>
            \* dividing by the reported response 10^g H cancels the gain carried by the demodulated samples
@@ -461,7 +478,8 @@ UseObj(L) ==
            stale == Dev.PadKeepsOldData /\ prev.ns = nsx /\ prev.N = obj.N /\ prev.u = obj.u
        IN  /\ hist' = Append(hist, <<"use", L, k, 0>>)
            /\ prev' = [ns |-> nsx, N |-> obj.N, u |-> obj.u,
-                       pad |-> [j \in 1..(nsx * obj.u) |-> IF j <= L THEN d[j] ELSE IF stale THEN prev.pad[j] ELSE GZ]]
+                       pad |-> [j \in 1..(nsx * obj.u) |-> IF j <= L THEN d[j] ELSE IF stale THEN prev.pad[j] ELSE GZ],
+                       cur |-> <<obj.N, obj.cp, obj.u, nsx, k>>, old |-> prev.cur]
     /\ UNCHANGED pc /\ UNCHANGED Pipeline /\ UNCHANGED <<want, obj, memo, rxe>>
 NewObject   == \E c \in HistFirst : Construct(c)
 Reconfigure == \E c \in HistValid \cup HistBad : SetParameters(c)
@@ -479,8 +497,25 @@ ScaleCase(k) ==
 ScaleStar == pc = "idle" /\ hist = <<>> /\ \E k \in ScaleCases : ScaleCase(k)
 MapStar  == pc = "idle" /\ hist = <<>> /\ \E N \in MapFfts : \E h \in 1..(N \div 2) : MapCase(N, 2 * h)
 ParamStar == pc = "idle" /\ hist = <<>> /\ \E N \in ParamFfts : \E cp \in -1..(N + 1) : \E u \in -1..(N + 2) : ParamCase(N, cp, u)
-Transmit == pc = "cp" /\ ns > 0 /\ \E ch \in Channels(<<cfg.N, cfg.cp, cfg.u>>, KeyOf(<<cfg.N, cfg.cp, cfg.u>>, 0)) : Channel(ch)
-Next == ScaleStar \/ NewObject \/ Reconfigure \/ UseLive \/ StartLive \/ Start \/ MapStar \/ ParamStar \/ Pad \/ Map \/ Ifft \/ AddCP \/ Loop \/ Transmit
+\* the layouts of the configuration and, for a use of a live object, a realisation of its own (cfg.pat[2] = position of the use)
+Transmit == pc = "cp" /\ ns > 0
+            /\ LET c == <<cfg.N, cfg.cp, cfg.u>>
+               IN  \E ch \in Channels(c, KeyOf(c, 0)) \cup (IF hist # <<>> /\ OwnReal THEN Channels(c, KeyOf(c, cfg.pat[2])) ELSE {}) : Channel(ch)
+\* one very long input: <<N, cp, u, L>>
+BlockLimit == 65536
+RECURSIVE BlocksBefore(_, _)       \* padded length of the complete blocks in front of data element j (as-is, in blocks)
+BlocksBefore(j, u) == IF j <= BlockLimit THEN 0 ELSE NSym(BlockLimit, u) * u + BlocksBefore(j - BlockLimit, u)
+PosAsIs(j, u) == IF Dev.ModulateInBlocks THEN BlocksBefore(j, u) + ((j - 1) % BlockLimit) + 1 ELSE j
+RECURSIVE NSymBlocks(_, _)
+NSymBlocks(L, u) == IF L <= BlockLimit THEN NSym(L, u) ELSE NSym(BlockLimit, u) + NSymBlocks(L - BlockLimit, u)
+NSymAsIs(L, u) == IF Dev.ModulateInBlocks THEN NSymBlocks(L, u) ELSE NSym(L, u)
+LongCase(k) ==
+    /\ pc = "idle" /\ pc' = "longcase"
+    /\ cfg' = [NoCfg EXCEPT !.N = k[1], !.cp = k[2], !.u = k[3], !.L = k[4]]
+    /\ UNCHANGED <<ns, data, chan, sc, padded, grid, gridi, body, tx, txi, rxfull, rx, win, wini, freq, dem, demi, eq>>
+    /\ UNCHANGED live /\ UNCHANGED psq /\ UNCHANGED rxe
+LongStar == pc = "idle" /\ hist = <<>> /\ \E k \in LongCases : LongCase(k)
+Next == LongStar \/ ScaleStar \/ NewObject \/ Reconfigure \/ UseLive \/ StartLive \/ Start \/ MapStar \/ ParamStar \/ Pad \/ Map \/ Ifft \/ AddCP \/ Loop \/ Transmit
         \/ Crop \/ RemoveCP \/ Fft \/ Unmap \/ Equalize
 
 (* ============================================= the laws ========================================= *)
@@ -522,6 +557,13 @@ DiscLaw == pc = "chan" => DiscOk(chan) /\ (~Dev.MemoryExceedsCp => Memory(chan.t
 ScaleLaw == /\ pc = "ifft" => psq = N0 * N0
             /\ pc = "scalecase" => /\ Valid(N0, CP, U) /\ Fits(cfg.pt, <<N0, CP, U>>, 1)
                                    /\ MapLaws(N0, U, UsedIdx(N0, U))
+
+\* one very long input: ceil(L/u) symbols and every data element at its own position of the padded stream
+LongLaw == pc = "longcase" =>
+    /\ Valid(N0, CP, U)
+    /\ NSymAsIs(cfg.L, U) = NSym(cfg.L, U)
+    /\ (NSym(cfg.L, U) - 1) * U < cfg.L /\ cfg.L <= NSym(cfg.L, U) * U
+    /\ \A j \in {1, cfg.L} \cup {b * BlockLimit + 1 : b \in 1..(cfg.L \div BlockLimit)} : j <= cfg.L => PosAsIs(j, U) = j
 
 \* zero padding: the data followed only by zeros, up to a whole number of symbols
 PadLaw == pc = "pad" =>
@@ -598,6 +640,7 @@ StepOut ==
     CASE pc = "input"   -> [data |-> data]
       [] pc = "mapcase" -> [idx |-> UsedIdx(N0, U)]
       [] pc = "param"   -> [valid |-> ValidCall(N0, CP, U)]
+      [] pc = "longcase" -> [ns |-> NSym(cfg.L, U), txlen |-> NSym(cfg.L, U) * (N0 + CP), pad |-> NSym(cfg.L, U) * U - cfg.L]
       [] pc = "scalecase" -> [idx |-> UsedIdx(N0, U), ns |-> 1, padded |-> [j \in 1..U |-> IF j = 1 THEN <<1, 0>> ELSE GZ]]
       [] pc = "pad"     -> [padded |-> padded, ns |-> ns]
       [] pc = "map"     -> [grid |-> grid, gridi |-> gridi, idx |-> UsedIdx(N0, U)]
